@@ -993,7 +993,7 @@ orc_compiler_get_temp_reg (OrcCompiler *compiler)
     }
   }
   for(j=0;j<compiler->n_constants;j++){
-    if (compiler->constants[j].alloc_reg) {
+    if (compiler->constants[j].alloc_reg > 0) {
       compiler->alloc_regs[compiler->constants[j].alloc_reg] = 1;
     }
   }
@@ -1506,7 +1506,7 @@ orc_compiler_get_constant_reg (OrcCompiler *compiler)
     }
   }
   for(j=0;j<compiler->n_constants;j++){
-    if (compiler->constants[j].alloc_reg) {
+    if (compiler->constants[j].alloc_reg > 0) {
       compiler->alloc_regs[compiler->constants[j].alloc_reg] = 1;
     }
   }
